@@ -694,6 +694,70 @@ example : ∃ r', ggswRotateAssign 2 7 exGa = .ok r' ∧ r'.cts.length = 4 := by
   obtain ⟨r', h, hl, _⟩ := ggsw_rotate_assign_cells (N := 2) 7 (res := exGa) (by decide) (by decide)
   exact ⟨r', h, hl⟩
 
+/-! ## scratch: "no key", but the in-place and shifting operations need a scratch arena
+
+The interpreter executes the `…S` forms: the operation behind its `scratch.available() >= …_tmp_bytes`
+assertion (`sc` = bytes available; `scratchCap sb` for `ScratchOwned::alloc(sb)`, rounded up to a
+multiple of 64).  With enough scratch the `…S` form *is* the operation, so every theorem above
+applies; with less it is an assertion failure, never a wrong result. -/
+
+/-- enough scratch: the guarded form is the operation itself -/
+theorem scratch_enough {N sc : Nat} (k : Int) (kk : Nat) (scr : Int) (res a : GLWE) (g : GGSW) :
+    (Scratch.tbGlweRotate N ≤ sc → glweRotateAssignS N sc k res = glweRotateAssign N k res ∧
+      glweMulXpMinusOneAssignS N sc k res = glweMulXpMinusOneAssign N k res ∧
+      ggswRotateAssignS N sc k g = ggswRotateAssign N k g) ∧
+    (Scratch.tbGlweShift N ≤ sc → glweRshS N sc scr kk res = glweRsh N scr kk res ∧
+      glweLshAssignS N sc res kk = glweLshAssign N res kk ∧ glweLshS N sc res a kk = glweLsh N res a kk ∧
+      glweLshAddS N sc res a kk = glweLshAdd N res a kk ∧ glweLshSubS N sc res a kk = glweLshSub N res a kk) ∧
+    (Scratch.tbGlweNormalize N ≤ sc → glweNormalizeAssignS N sc res = glweNormalizeAssign N res ∧
+      glweNormalizeS N sc res a = glweNormalize N res a) := by
+  refine ⟨fun h => ⟨?_, ?_, ?_⟩, fun h => ⟨?_, ?_, ?_, ?_, ?_⟩, fun h => ⟨?_, ?_⟩⟩
+  · simp [glweRotateAssignS, checkS, h]
+  · have h' : Scratch.oneLimbTmp N ≤ sc := h
+    unfold glweMulXpMinusOneAssignS glweMulXpMinusOneAssign
+    by_cases c : (res.n == N) = true <;> simp [check, checkS, c, h']
+  · simp [ggswRotateAssignS, checkS, h]
+  · simp [glweRshS, checkS, h]
+  · simp [glweLshAssignS, checkS, h]
+  · simp [glweLshS, checkS, h]
+  · simp [glweLshAddS, checkS, h]
+  · simp [glweLshSubS, checkS, h]
+  · simp [glweNormalizeAssignS, checkS, h]
+  · unfold glweNormalizeS glweNormalize
+    by_cases c1 : (res.n == N) = true <;> by_cases c2 : (a.n == N) = true <;> by_cases c3 : (res.rank == a.rank) = true <;>
+      simp [check, checkS, c1, c2, c3, h]
+
+/-- too little scratch is `panic "scratch"` — before any other assertion for the shifts and the in-place
+forms, after the shape assertions for `glwe_normalize` (as in the Rust) -/
+theorem scratch_too_small_panics {N sc : Nat} (k : Int) (kk : Nat) (scr : Int) (res a : GLWE) (g : GGSW) :
+    (sc < Scratch.tbGlweRotate N → glweRotateAssignS N sc k res = .panic "scratch" ∧
+      ggswRotateAssignS N sc k g = .panic "scratch" ∧
+      (res.n = N → glweMulXpMinusOneAssignS N sc k res = .panic "scratch")) ∧
+    (sc < Scratch.tbGlweShift N → glweRshS N sc scr kk res = .panic "scratch" ∧ glweLshAssignS N sc res kk = .panic "scratch" ∧
+      glweLshS N sc res a kk = .panic "scratch" ∧ glweLshAddS N sc res a kk = .panic "scratch" ∧
+      glweLshSubS N sc res a kk = .panic "scratch") ∧
+    (sc < Scratch.tbGlweNormalize N → glweNormalizeAssignS N sc res = .panic "scratch" ∧
+      (res.n = N → a.n = N → res.rank = a.rank → glweNormalizeS N sc res a = .panic "scratch")) := by
+  refine ⟨fun h => ⟨?_, ?_, fun h1 => ?_⟩, fun h => ⟨?_, ?_, ?_, ?_, ?_⟩, fun h => ⟨?_, fun h1 h2 h3 => ?_⟩⟩
+  · simp [glweRotateAssignS, checkS, Nat.not_le.mpr h]
+  · simp [ggswRotateAssignS, checkS, Nat.not_le.mpr h]
+  · have h' : ¬ Scratch.oneLimbTmp N ≤ sc := Nat.not_le.mpr h
+    simp [glweMulXpMinusOneAssignS, check, checkS, h1, h']
+  · simp [glweRshS, checkS, Nat.not_le.mpr h]
+  · simp [glweLshAssignS, checkS, Nat.not_le.mpr h]
+  · simp [glweLshS, checkS, Nat.not_le.mpr h]
+  · simp [glweLshAddS, checkS, Nat.not_le.mpr h]
+  · simp [glweLshSubS, checkS, Nat.not_le.mpr h]
+  · simp [glweNormalizeAssignS, checkS, Nat.not_le.mpr h]
+  · simp [glweNormalizeS, check, checkS, h1, h2, h3, Nat.not_le.mpr h]
+
+/-- thresholds at `N = 8`: 64, 128 and 192 bytes; an arena requested with 65 bytes holds 128 -/
+example : Scratch.tbGlweRotate 8 = 64 ∧ Scratch.tbGlweShift 8 = 128 ∧ Scratch.tbGlweNormalize 8 = 192 ∧ scratchCap 65 = 128 ∧
+    glweRshS 8 (scratchCap 64) 0 1 exA = .panic "scratch" ∧ glweRshS 2 (scratchCap 1) 0 1 exA = glweRsh 2 0 1 exA := by
+  refine ⟨by decide, by decide, by decide, by decide, ?_, ?_⟩
+  · exact ((scratch_too_small_panics (N := 8) (sc := scratchCap 64) 0 1 0 exA exA exGa).2.1 (by decide)).1
+  · exact ((scratch_enough (N := 2) (sc := scratchCap 1) 0 1 0 exA exA exGa).2.1 (by decide)).1
+
 /-! ## straight-line programs
 
 `specStep N sz P op` is the program step on plaintext limb columns (`P i` = phase of pool entry `i`,
@@ -714,7 +778,7 @@ theorem program_phase_hom (ops : List Op) (p p' : Pool) (hp : PoolWF p) (hs : Sm
     PoolWF p' ∧ ∀ s i, phaseAt s p' i = specRun p.N (sizeAt p) (phaseAt s p) ops i :=
   run_phase ops p p' hp hs hex h
 
-def exPool : Pool := { N := 2, scr := 0, objs := [.ct exRes2, .ct exRes, .ct exA, .ct exPt] }
+def exPool : Pool := { N := 2, scr := 0, objs := [.ct exRes2, .ct exRes, .ct exA, .ct exPt], sb := 16 }
 def exProg : List Op := [.rotate (-3) 1 2, .addAssign 0 1, .subNegateAssign 0 3, .mulXpMinusOneAssign 5 0, .add 1 2 3]
 
 example : ∃ p', run exPool exProg = .ok p' ∧
